@@ -11,7 +11,7 @@ import (
 )
 
 var c07Floor = []string{"cte.1", "cte.chain2", "cte.chain3", "cte.twice.join", "cte.twice.union", "cte.twice.insub", "cte.selector", "derived", "derived.where",
-	"subq.nested", "subq.root", "subq.in", "subq.agg", "exists", "exists.outer", "subq.root-correlated", "derived.join", "subq.with", "agg.stages", "exists.dual", "inner.agg", "inner.order", "inner.filter", "cte.mixedcase", "exists.outer.marker", "exists.sparse", "subq.in.null-left", "exists.shadow", "exists.outer.marker-is", "cte.named-like-its-table", "cte.nested-with", "cte.nested-with.twice", "cte.union-chain3", "subq.in.qualified-item", "subq.notin", "exists.naming.table-qualified", "exists.naming.alias", "exists.naming.alias-unqualified"}
+	"subq.nested", "subq.root", "subq.in", "subq.agg", "exists", "exists.outer", "subq.root-correlated", "derived.join", "subq.with", "agg.stages", "exists.dual", "inner.agg", "inner.order", "inner.filter", "cte.mixedcase", "exists.outer.marker", "exists.sparse", "subq.in.null-left", "exists.shadow", "exists.outer.marker-is", "cte.named-like-its-table", "cte.nested-with", "cte.nested-with.twice", "cte.union-chain3", "subq.in.qualified-item", "subq.notin", "exists.naming.table-qualified", "exists.naming.alias", "exists.naming.alias-unqualified", "cte.chain-named-like-tables", "exists.shadow.aliased", "exists.outer.alias-path", "exists.outer.table-qualified"}
 
 func init() {
 	fw.Register(&fw.Prop{
@@ -280,6 +280,13 @@ func c07Run(c *fw.Case) {
 		case "t%d":
 			// the first CTE is named like the table it reads (WITH t1 AS (SELECT ... FROM t1 ...))
 			feats = append(feats, "cte.named-like-its-table")
+			if n >= 2 {
+				// ... and so are the later ones: the document has tables t2 and t3 of its own
+				doc["t2"] = []any{map[string]any{"rid": -1.0, "n1": -7.0, "s1": "decoy", "arr": []any{}, "obj": map[string]any{"k": -1.0, "w": "d"}}, map[string]any{"rid": -2.0, "n1": -8.0, "s1": "decoy"}}
+				doc["t3"] = []any{map[string]any{"rid": -3.0, "n1": -9.0, "s1": "decoy3"}}
+				staged = fresh()
+				feats = append(feats, "cte.chain-named-like-tables")
+			}
 		default:
 			feats = append(feats, "cte.mixedcase")
 		}
@@ -891,10 +898,7 @@ func c07Run(c *fw.Case) {
 			feats = append(feats, "exists.shadow")
 		}
 		neg := c.Chance(0.25)
-		composed := "SELECT rid FROM t1 WHERE "
-		if neg {
-			composed += "NOT "
-		}
+		selFrom := "SELECT rid FROM t1 WHERE "
 		ro := gen.RenderOpts{}
 		if kind == "exists.outer" && c.Chance(0.5) {
 			// the outer column mentioned through the marker; the root document
@@ -935,6 +939,29 @@ func c07Run(c *fw.Case) {
 				fromArr = "arr a"
 				feats = append(feats, "exists.naming.alias-unqualified")
 			}
+		}
+		if containsStr(feats, "exists.shadow") && c.Chance(0.4) {
+			// under an alias of the nested table the bare name still means the element's column
+			fromArr = "arr a"
+			feats = append(feats, "exists.shadow.aliased")
+		}
+		if kind == "exists.outer" && !containsStr(feats, "exists.outer.marker") && !containsStr(feats, "exists.shadow") && fromArr == "arr" && ro.ColText["e"] == "" {
+			// how the outer row's column is named: through the outer table's
+			// alias (which also leads to the nested table), or with the outer
+			// table's own name
+			switch c.Intn(4) {
+			case 0:
+				selFrom, fromArr = "SELECT x.rid FROM t1 x WHERE ", "x.arr"
+				ro.ColText["n1"] = "x.n1"
+				feats = append(feats, "exists.outer.alias-path")
+			case 1:
+				ro.ColText["n1"] = "t1.n1"
+				feats = append(feats, "exists.outer.table-qualified")
+			}
+		}
+		composed := selFrom
+		if neg {
+			composed += "NOT "
 		}
 		composed += "EXISTS (SELECT e FROM " + fromArr + " WHERE " + gen.RenderPred(p, ro) + ")"
 		var want []any
